@@ -38,16 +38,20 @@ fn val5(v: &[f64]) -> Vec<i64> {
   }
 }
 
+static QUICK: std::sync::atomic::AtomicBool = std::sync::atomic::AtomicBool::new(true);
+
 fn dump_hooks(sink: &mut Sink, first: bool) {
   let mut evs = hooks::take();
   evs.sort_by_key(|e| e.seq);
   let base = evs.first().map(|e| e.seq).unwrap_or(0);
   // the trace spec carries the memo as a function, so its cost grows with the square of the number of fills: a stretch is
-  // validated up to its 30,000th fill / 150,000th event (more than twice what any stretch of the unchanged library needs);
+  // validated up to its 10,000th fill / 60,000th event in the quick tier, 30,000th / 150,000th in the thorough tier (more than
+  // twice what any stretch of the unchanged library needs);
   // what a runaway history did before that point is still checked event by event
   let mut fills = 0usize;
   for (n, e) in evs.iter().enumerate() {
-    if fills > 30_000 || n > 150_000 {
+    let (cf, ce) = if QUICK.load(std::sync::atomic::Ordering::Relaxed) { (10_000, 60_000) } else { (30_000, 150_000) };
+    if fills > cf || n > ce {
       sink.put(Ev::new("ce").i("s", 0).i("seq", (e.seq - base) as i64).i("th", e.thread as i64).s("op", "cut").s("key", "").i("y", 0).i("m", 0).a("v", &[0, 0, 0, 0, 0]).done());
       break;
     }
@@ -548,6 +552,7 @@ fn lazy_programs(ctx: &Ctx) -> usize {
 }
 
 pub fn run(ctx: &Ctx) -> usize {
+  QUICK.store(ctx.quick(), std::sync::atomic::Ordering::Relaxed);
   histories(ctx) + collisions(ctx) + pools(ctx) + threads(ctx) + mixed(ctx) + lazy(ctx) + lazy_programs(ctx)
 }
 
